@@ -29,7 +29,10 @@ RULE = (
     "re-annotating after make_mandatory; Extra.forbid parents) x a shared boundary-value corpus. One-directional "
     "soundness oracle: whenever the class chain is accepted at creation and by check_types and no class on the path "
     "declares @override, every corpus value the leaf accepts must serialise to something each ancestor parses; "
-    "@override silences the rule. Thorough adds Hypothesis-generated depth-2 types. Non-trivial = accepted pair with "
+    "@override silences the rule. Pool and shapes also cover Annotated[..., Field(...)] constraints, x: T = None in the "
+    "child, make_mandatory with several names, fields added by @add_const_fields / @ld under Extra.forbid, mutually "
+    "recursive siblings after a refusal; a refused plugin must stay refused (not handed out / listed by the group) for "
+    "manual registration and for entry points. Thorough adds Hypothesis-generated depth-2 types. Non-trivial = accepted pair with "
     "child type != parent type, or refused pair for which the corpus holds a witness; distinct by (parent, child, shape)"
 )
 ASSUMPTIONS = ["completeness not asserted (a safe override being refused is allowed)",
